@@ -86,6 +86,9 @@ type Exec struct {
 	hashBuf      map[*Value][]Value
 	durSecs      map[*Term]Sc
 	top          *frame
+	gors         []*gor
+	cur          *gor
+	condGen      map[*Value]int
 	model        map[string]uint64 // a satisfying assignment of pc (by smt var name), or nil
 	domains      map[*Term]*[4]uint64
 	domUndo      []domUndo
@@ -717,8 +720,10 @@ func (e *Exec) runPath(prefix []decision, entry *ssa.Function) (out pathOutcome)
 	e.timers = nil
 	e.top = nil
 	e.model = nil
+	e.condGen = map[*Value]int{}
 	defer func() {
 		e.stats.Steps += e.steps
+		e.killGoroutines()
 		e.undoTo(0)
 	}()
 	defer func() {
